@@ -34,8 +34,8 @@ LEVEL_TEXT = (
     "affine tables equal the Refdom tables, normals are mapped by DF^-T of "
     "the cell that owns the slot and normalised; (R3) all evaluators slice "
     "by the cell/facet subset under one guard; (R4) F / invF are A X + b and "
-    "invA (x - b). Numerical agreement on concrete (curved) meshes and the "
-    "Newton inverse are not decided.")
+    "invA (x - b). Numerical agreement on concrete (curved) meshes and "
+    "convergence of the Newton inverse are not decided.")
 LEVEL_TEXT += (
     " Added after the seeding phase: (R5) the Newton inverse of the "
     "isoparametric map - step invDF(X)(x - F(X)) added to the iterate, "
